@@ -1,5 +1,10 @@
 pub use ascii_map::ASCII_PROPERTIES;
 pub use circle_map::{CIRCLES_SPAN, DIAMETER_CIRCLE};
+#[cfg(feature = "verif-hooks")]
+pub use circle_map::{
+    FLATTENED_HALF_ARC_SPAN, FLATTENED_QUARTER_ARC_SPAN,
+    FLATTENED_THREE_QUARTERS_ARC_SPAN,
+};
 pub use unicode_map::{
     FRAGMENTS_UNICODE, UNICODE_FRAGMENTS, UNICODE_PROPERTIES,
 };
